@@ -13,6 +13,8 @@ sys.path.insert(0, VERIF)
 sys.path.insert(0, os.environ.get("VERIF_REPO", "/repo"))
 
 NOT_APPLICABLE = {}
+# only modules listed here are registered (others may be work in progress)
+READY = ["C01", "C02"]
 
 FIX_COMMITS_NOTE = ("No source hooks are needed: time, the attacher singleton, tempfile and os.urandom are "
                     "substituted from the harness side per case. source_commits is therefore empty; the "
@@ -29,7 +31,7 @@ def main():
     na = []
     for pid in ids:
         path = os.path.join(VERIF, "props", pid.lower() + ".py")
-        if pid in NOT_APPLICABLE or not os.path.exists(path):
+        if pid in NOT_APPLICABLE or pid not in READY or not os.path.exists(path):
             na.append({"property_id": pid,
                        "reason": NOT_APPLICABLE.get(pid, "check not built yet (work in progress); not claimed")})
             continue
